@@ -122,6 +122,7 @@ func (w *World) defaultOpts() engine.Options {
 }
 
 func (w *World) openEngine() error {
+	w.openedAt = w.Now()
 	e, err := engine.Open(w.Opts)
 	if err != nil {
 		return err
@@ -257,6 +258,8 @@ type GenProfile struct {
 	MaxRest   int      `json:"max_restarts"`
 	NOps      int      `json:"nops"`
 	Retention bool     `json:"retention"`
+	AdvSet    []int64  `json:"adv_set,omitempty"`  // clock advances to draw from (ns); default set if empty
+	GraphOnly bool     `json:"graph_only,omitempty"` // C10/C11: every index gets a retention-capable config, nodes few
 }
 
 // GenState is what the generator knows about the current state.
@@ -272,6 +275,7 @@ type GenState struct {
 	uniq    int
 	Restarts int
 	Dropped map[string]bool // index names that were dropped at least once
+	retentionUsed bool      // at most one index per run gets a graph retention (RunGraphVacuum takes the first it finds)
 }
 
 type GenIdx struct {
@@ -406,9 +410,16 @@ func (gs *GenState) genCfg(r *rand.Rand) *IndexCfg {
 		m.RefineBatchSize = 10 + r.Intn(50)
 		m.VacuumInterval = hnsw.Duration([]time.Duration{time.Second, time.Minute, 5 * time.Minute}[r.Intn(3)])
 		m.RefineInterval = hnsw.Duration([]time.Duration{2 * time.Second, time.Minute}[r.Intn(2)])
-		if p.Retention && r.Intn(2) == 0 {
+		if p.Retention && r.Intn(2) == 0 && !gs.retentionUsed {
 			m.GraphRetention = hnsw.Duration([]time.Duration{time.Second, time.Minute, time.Hour}[r.Intn(3)])
+			gs.retentionUsed = true
 		}
+		c.Maint = &m
+	}
+	if p.GraphOnly && c.Maint == nil && !gs.retentionUsed {
+		m := hnsw.DefaultMaintenanceConfig()
+		m.GraphRetention = hnsw.Duration([]time.Duration{1, time.Second, 3 * time.Second, time.Minute}[r.Intn(4)])
+		gs.retentionUsed = true
 		c.Maint = &m
 	}
 	if p.AutoLink && r.Intn(3) == 0 {
@@ -623,6 +634,9 @@ func (gs *GenState) genOp(r *rand.Rand) Op {
 			}
 			return Op{K: "maint", Idx: pick(r, live), Task: pick(r, []string{"vacuum", "refine"})}
 		case "advance":
+			if len(gs.P.AdvSet) > 0 {
+				return Op{K: "advance", D: pick(r, gs.P.AdvSet)}
+			}
 			ds := []time.Duration{1, time.Microsecond, time.Millisecond, 100 * time.Millisecond, time.Second, 2 * time.Second, 61 * time.Second, 5 * time.Minute}
 			return Op{K: "advance", D: int64(pick(r, ds))}
 		case "restart":
